@@ -163,3 +163,24 @@ example :
     (⟨.tuple, [97], [49], none⟩ : Ref).hashKey = (⟨.named, [97], [49], some [110]⟩ : Ref).hashKey ∧
     Ref.lt ⟨.reference, [97], [50], none⟩ ⟨.reference, [97, 97], [49], none⟩ = true := by
   decide
+
+
+/-- **C15 (`from_reference`).** Converting an existing reference, with or without a converter as
+validation context, is parsing its printed CURIE (with the name it carries, if the argument is of a
+named class): the same standardisation, the same rejections — whatever class the argument has. -/
+theorem C15_from_reference (cls : RefClass) (r : Ref) (conv : Option Conv) (hp : 58 ∉ r.pfx)
+    (hnamedarg : cls = .named → (r.cls = .namable ∨ r.cls = .named)) :
+    fromReference cls r conv =
+      fromCurie cls r.curie (if r.cls == .namable || r.cls == .named then r.name else none) conv := by
+  unfold fromReference fromCurie Ref.curie Conv.split
+  simp only [List.isEmpty_cons, Bool.false_eq_true, if_false]
+  rw [partition?_append [58] r.pfx r.ident (by simp) (delimOK_single 58 r.pfx hp)]
+  simp only
+  by_cases hc : cls = .named
+  · have hn := hnamedarg hc
+    have hb : (r.cls == RefClass.namable || r.cls == RefClass.named) = true := by
+      rcases hn with h | h <;> simp [h]
+    subst hc
+    simp [hb]
+  · have : (cls == RefClass.named) = false := by cases cls <;> simp_all
+    simp [this]
